@@ -163,7 +163,45 @@ static void mt_scenario(int nsub, const int *kinds) {
     }
 }
 
+// a subscriber is copied on one thread while another thread registers new subscribers (the registration table grows)
+static void copy_scenario() {
+    int64_t *s = vrt_scratch();
+    {
+        auto pub = std::make_unique<cocls::publisher<int>>();
+        pub->publish(1);
+        auto sub0 = std::make_unique<cocls::subscriber<int>>(*pub, cocls::subscribtion_type::all_values);
+        std::unique_ptr<cocls::subscriber<int>> copy, extra[3];
+        vstd::thread ta([&] {
+            vrt_label("copier");
+            copy.reset(new cocls::subscriber<int>(*sub0));
+        });
+        vstd::thread tb([&] {
+            vrt_label("subscriber-maker");
+            for (auto &e : extra) e.reset(new cocls::subscriber<int>(*pub, cocls::subscribtion_type::all_values));
+        });
+        ta.join();
+        tb.join();
+        pub->publish(2);
+        pub->close();
+        // the copy continues from the original's position: it sees exactly what the original sees
+        int k[2] = {SK_BLOCK, SK_BLOCK};
+        (void)k;
+        sub_thread(*sub0, 0, SK_BLOCK, 2);
+        sub_thread(*copy, 1, SK_BLOCK, 2);
+        vrt_label("main");
+        VRT_CHECK(s[S_CNT] == s[S_CNT + 1], "pub/copy-differs", "the original received %ld values, its copy %ld", (long)s[S_CNT], (long)s[S_CNT + 1]);
+        for (int i = 0; i < s[S_CNT] && i < 10; i++)
+            VRT_CHECK(s[S_VAL + i] == s[S_VAL + 10 + i], "pub/copy-differs", "value #%d: original %ld, copy %ld", i, (long)s[S_VAL + i], (long)s[S_VAL + 10 + i]);
+        VRT_CHECK(s[S_CNT] >= 1 && s[S_VAL + s[S_CNT] - 1] == 2, "pub/newest-not-delivered", "the last value seen is not the newest");
+        vrt_outcome("n=%ld", (long)s[S_CNT]);
+        copy.reset();
+        for (auto &e : extra) e.reset();
+        sub0.reset();
+    }
+}
+
 VRT_REGISTER(reg_pub) {
+    vrt::add("pubcopy_concurrent-subscribe", [] { copy_scenario(); });
     for (int a = 0; a < 2; a++) {
         vrt::add(std::string("pubmt1_") + sk_names[a], [=] {
             int k[2] = {a, 0};
